@@ -175,6 +175,11 @@ def explore(execute_with_choices, max_runs=None):
         out = execute_with_choices(prefix)
         n += 1
         pts = out['points']
+        if out.get('exc') and out['exc'][0] != 'Raise' and len(pts) < len(prefix):
+            # the library call itself failed before the prefix could be replayed: that is an observation to judge
+            # (the caller reports it), not a divergence of the harness
+            yield prefix, out
+            continue
         # replayed prefix must have been honoured
         for i, ch in enumerate(prefix):
             if i >= len(pts) or pts[i][1] != ch:
